@@ -97,8 +97,8 @@ Definition ex_doc14 : PX.doc :=
             PX.FragDef (s "F") (PX.P 0 0 2 false)].
 Definition ex_bodies : list PX.defbody :=
   [PX.Body [PX.W (s "{"); PX.Indent; PX.W [10%N]; PX.WF (s "me") (PX.P 2 2 1 false) (Some (s "me")); PX.W (s ": string;"); PX.Dedent; PX.W (10%N :: s "}")]
-           [PX.W (s "{}")] (s "{}");
-   PX.Body [PX.W (s "{}")] [] (s "{}")].
+           [PX.W (s "{}")] [PX.W (s "{}")] (s "{}");
+   PX.Body [PX.W (s "{}")] [] [] (s "{}")].
 Example operation_definitions_example :
   option_map (fun st => (option_map (@length seg) (decode_mappings (mbuf (sw_map st))), nm_all (sw_names st)))
     (sw_run (Some [0; 1; 2]%N) (map ProofsDefs.conv_wop (PX.dts_ops PX.type_default ex_doc14 ex_bodies)))
